@@ -317,6 +317,43 @@ fn hedge_case(cfg: Cfg, seeded: bool, fault: &'static str) -> Box<dyn Case> {
     })
 }
 
+/// Source of every RNG-derived nonce, on ordinary (non-degenerate) generators where each nonce is its own coordinate: under
+/// every fault model each of alpha, dL, dR, d, eta (unseeded) and r, s (always) is an output of the witness-keyed transcript
+/// RNG of that run. A nonce taken from anywhere else (the external generator directly, a constant) is not hedged.
+fn source_case(cfg: Cfg, seeded: bool, fault: &'static str) -> Box<dyn Case> {
+    case(format!("{}/seeded={}/fault={}/nonce-source", cfg.key(), seeded, fault), move |_v| {
+        fg::clear_intern();
+        let mut res = CaseResult::new("explored");
+        let mut wit = Wit::default_for(&cfg);
+        if seeded {
+            wit.seed = Some(seed_scalar(33));
+        }
+        let run = match crate::props::c13::observed_prove(&cfg, &wit, &CTX_A, &mut fault_rng(fault), &mut res, "nonce-source") {
+            Some(r) => r,
+            None => {
+                res.outcome = "prover-failed(skipped)".into();
+                return res;
+            },
+        };
+        let handed: std::collections::BTreeSet<[u8; 32]> = run.rng_scalars.iter().map(|x| x.to_bytes()).collect();
+        for (name, v) in run.nonces.all() {
+            let rng_derived = !seeded || name == "r" || name == "s";
+            if !rng_derived {
+                continue;
+            }
+            res.validated += 1;
+            *res.outcome_counter("nonce-sources-checked") += 1;
+            if !handed.contains(&v.to_bytes()) {
+                res.violate(
+                    format!("source/{}", name),
+                    format!("under RNG fault '{}' nonce {} is not an output of the witness-keyed transcript RNG (it comes from somewhere that is not hedged)", fault, name),
+                );
+            }
+        }
+        res
+    })
+}
+
 pub fn run(rep: &mut Report) {
     rep.rule = "RNG fault models {all-zero, constant 0x5a, period-2, replayed stream} x configurations (aggregation <= 2 of the lattice) x \
                 seed {absent, present} x run pairs differing in exactly one of: witness value with the same commitment (H = G_0), witness \
@@ -324,7 +361,8 @@ pub fn run(rep: &mut Report) {
                 promise, bit length, one blinding generator; oracle: the RNG-derived nonces of the two runs (transcript-RNG outputs) share \
                 no element (all pairs), identical runs are bit-identical, nonces within a run stay distinct, and on the merlin trace every \
                 RNG a nonce is drawn from was built after the latest absorbed message, keyed with the complete witness serialisation \
-                and finalised with external randomness"
+                and finalised with external randomness; on ordinary generators (5 configurations x 4 fault models) every RNG-derived nonce read back from the proof \
+                is an output of that transcript RNG"
         .into();
     rep.assume("the external RNG is only consulted through RngCore::fill_bytes (merlin's finalize); fault models replace that stream");
     let mut cases: Vec<Box<dyn Case>> = Vec::new();
@@ -346,7 +384,16 @@ pub fn run(rep: &mut Report) {
             }
         }
     }
+    for cfg in [Cfg::new(2, 1, 1, 1), Cfg::new(2, 1, 1, 3), Cfg::new(4, 2, 2, 2), Cfg::new(8, 1, 2, 6), Cfg::new(16, 2, 4, 4)] {
+        for fault in FAULTS {
+            cases.push(source_case(cfg, false, fault));
+            if cfg.m == 1 {
+                cases.push(source_case(cfg, true, fault));
+            }
+        }
+    }
     rep.explore("C14", cases);
+    rep.expect_sub_outcome("nonce-sources-checked");
     rep.expect_sub_outcome("same-commitment-pairs");
     rep.expect_sub_outcome("public-input-pairs");
 }
